@@ -8,12 +8,12 @@ from .c07 import make_score
 from .. import msk
 
 KINDS = [
-    "naive-last", "naive-mean", "naive-drift", "naive-seasonal-last", "naive-seasonal-mean", "poly", "sm-adapter",
+    "naive-last", "naive-mean", "naive-drift", "naive-seasonal-last", "naive-seasonal-mean", "poly", "poly-nointercept", "sm-adapter",
     "reduce-direct", "reduce-recursive", "reduce-multioutput", "reduce-dirrec",
     "ensemble", "pipeline", "pipeline-deseason", "stacking", "multiplexer", "gridsearch",
 ]
 REQUIRED_FH = ("reduce-direct", "reduce-multioutput", "reduce-dirrec", "stacking")
-SHIFTABLE = ("pipeline-deseason", "naive-last", "naive-mean", "naive-drift", "naive-seasonal-last", "naive-seasonal-mean", "poly", "reduce-direct", "reduce-recursive", "reduce-multioutput", "reduce-dirrec")
+SHIFTABLE = ("pipeline-deseason", "poly-nointercept", "naive-last", "naive-mean", "naive-drift", "naive-seasonal-last", "naive-seasonal-mean", "poly", "reduce-direct", "reduce-recursive", "reduce-multioutput", "reduce-dirrec")
 
 
 def is_nan(x):
@@ -50,7 +50,7 @@ class C03(Harness):
                 return types.SimpleNamespace(seasonal=W.pd.Series([sig[i % len(sig)] for i in range(len(z))], index=z.index))
 
             return {"statsmodels.tsa.seasonal": types.SimpleNamespace(seasonal_decompose=seasonal_decompose)}
-        if cell["kind"] in ("poly",) and kind == "sym":
+        if cell["kind"] in ("poly", "poly-nointercept") and kind == "sym":
             return {
                 "sklearn.linear_model": types.SimpleNamespace(LinearRegression=msk.LinearRegression),
                 "sklearn.pipeline": types.SimpleNamespace(make_pipeline=msk.make_pipeline),
@@ -88,6 +88,10 @@ class C03(Harness):
             inp["fh_in_fit"] = bool(ctx.fresh_bool("fh_in_fit"))
         if inp["absolute"] and nb and inp["fh_in_fit"]:
             ctx.assume(False)  # an absolute horizon fixed at fit would fall in-sample after the update
+        if k == "poly-nointercept":
+            # (a line through the origin of the *zero-based* time axis; origin and shift bounded so that code which regresses
+            #  on the time labels themselves stays decidable)
+            ctx.assume((inp["s0"] >= -1) & (inp["s0"] <= 2) & (inp["delta"] >= 0) & (inp["delta"] <= 2))
         if k == "pipeline-deseason":
             inp["sigma"] = fresh_reals(ctx, "sig", 2)
             # (origin and shift in a small range: code that looks the season up from the absolute label stays decidable)
@@ -114,6 +118,8 @@ class C03(Harness):
             return NF("mean", sp=2)
         if k == "poly":
             return W.load("sktime.forecasting.trend").PolynomialTrendForecaster(degree=1)
+        if k == "poly-nointercept":
+            return W.load("sktime.forecasting.trend").PolynomialTrendForecaster(degree=1, with_intercept=False)
         if k == "sm-adapter":
             ad = W.load("sktime.forecasting.base.adapters._statsmodels")
             pd = W.pd
